@@ -473,3 +473,21 @@ impl<R: sha3::digest::XofReader> sha3::digest::XofReader for XofTap<R> {
         }
     }
 }
+
+/// Stand-in for `sha3::Shake256` in `polynomial.rs` (imported under this name when the guard is on): identical
+/// absorption, and a reader that goes through `XofTap`.
+#[derive(Default, Clone)]
+pub struct Shake256(sha3::Shake256);
+
+impl sha3::digest::Update for Shake256 {
+    fn update(&mut self, data: &[u8]) {
+        sha3::digest::Update::update(&mut self.0, data)
+    }
+}
+
+impl sha3::digest::ExtendableOutput for Shake256 {
+    type Reader = XofTap<<sha3::Shake256 as sha3::digest::ExtendableOutput>::Reader>;
+    fn finalize_xof(self) -> Self::Reader {
+        XofTap::wrap(sha3::digest::ExtendableOutput::finalize_xof(self.0))
+    }
+}
